@@ -7,7 +7,9 @@ a closure, helper-rule body called from a choice), with one or two cuts
 inserted at every position of the bodies.  Oracles:
  (1) the reference evaluator with the documentation's equivalences;
  (2) wherever the documented semantics say no committed scope fails, G and G
-     with every cut removed behave identically (two implementation runs).
+     with every cut removed behave identically (two implementation runs);
+ (3) model-free: [x], {x}, {x}+ rewritten into helper rules exactly as
+     docs/syntax.rst states must accept/reject and consume identically.
 """
 from __future__ import annotations
 
@@ -98,6 +100,22 @@ def ctx_closure_in_choice(b):
     return ('alt', ('seq', ('clo', seq(b[0])), T2), seq(b[1])), []
 
 
+def expansion(name, b):
+    """The documentation's own equivalences as grammars (docs/syntax.rst, section on ~):
+    [x] == B -> x | ();  {x} == B -> x B | ();  {x}+ == B -> x B | x.  Returns (start exp, rules) or None."""
+    x = seq(b[0])
+    if name == 'optional':
+        return ('seq', ('call', 'bb'), *b[1]), [gs.Rule('bb', ('alt', x, ('void',)))]
+    if name == 'closure':
+        return ('seq', ('call', 'bb'), *b[1]), [gs.Rule('bb', ('alt', ('seq', *b[0], ('call', 'bb')), ('void',)))]
+    if name == 'pclosure':
+        # docs: {x}+ == B -> x B | x.  Taken literally a body that ends after a cut could never match once
+        # (the failure of the inner B after the cut would commit the outer option), so the positive closure
+        # is expanded as "x followed by the closure": B -> x C ; C -> x C | ()
+        return ('seq', ('call', 'bb'), *b[1]), [gs.Rule('bb', ('seq', *b[0], ('call', 'cc'))), gs.Rule('cc', ('alt', ('seq', *b[0], ('call', 'cc')), ('void',)))]
+    return None
+
+
 CONTEXTS = [
     ('choice', 2, ctx_choice), ('optional', 2, ctx_optional), ('closure', 2, ctx_closure),
     ('pclosure', 2, ctx_pclosure), ('join', 2, ctx_join), ('gather', 2, ctx_gather),
@@ -127,7 +145,7 @@ def programs(maxbody, maxcuts):
                         b[s] = with_cuts(combo[s], {p for sl, p in chosen if sl == s})
                     exp, extra = build(b)
                     nocut_exp, nocut_extra = build(list(combo))
-                    yield name, exp, extra, nocut_exp, nocut_extra
+                    yield name, exp, extra, nocut_exp, nocut_extra, tuple(b)
 
 
 def mk(exp, extra):
@@ -140,9 +158,16 @@ class CountingRef(Ref):
 
 
 def shard(m, items, inputs=()):
-    for name, exp, extra, nexp, nextra in items:
+    for name, exp, extra, nexp, nextra, bodies_with_cuts in items:
         g = mk(exp, extra)
         gn = mk(nexp, nextra)
+        ex = expansion(name, bodies_with_cuts)
+        model_ex = None
+        if ex is not None:
+            try:
+                model_ex = impl.compile_text(gs.render_grammar(mk(ex[0], ex[1])))
+            except Exception as e2:  # noqa
+                m.violation(f'expansion-does-not-compile/{name}', grammar=gs.render(ex[0]), error=str(e2)[:200])
         try:
             model = impl.compile_text(gs.render_grammar(g))
             model_nc = impl.compile_text(gs.render_grammar(gn))
@@ -183,6 +208,17 @@ def shard(m, items, inputs=()):
                 elif got[1] != wrapped:
                     qk = explain(g, t, got)
                     m.violation(f'defect:{qk}' if qk else f'result-differs/{name}', grammar=gtxt, input=t, got=got[1], want=wrapped, without_cuts=want_nc)
+            # oracle 3 (model-free): the documented expansion into helper rules makes the same
+            # accept/reject decision and consumes the same input
+            if model_ex is not None:
+                got_ex = impl.parse(model_ex, t)
+                m.add('evaluations')
+                m.add('transitions')
+                rest = lambda r: r[1].get('rest') if r[0] == 'ok' and isinstance(r[1], dict) else None  # noqa: E731
+                if got_ex[0] != got[0] or rest(got_ex) != rest(got):
+                    agrees_with_reference = (want[0] == 'fail' and got[0] == 'fail') or (want[0] == 'ok' and got[0] == 'ok' and got[1] == {'v': want[1], 'rest': t[want[2]:]})
+                    qk = None if agrees_with_reference else explain(g, t, got)
+                    m.violation(f'defect:{qk}' if qk else f'differs-from-documented-expansion/{name}', grammar=gtxt, input=t, got=got, expansion=got_ex)
             # oracle 2 (differential between two implementation runs): on inputs where the
             # documented semantics say no committed scope fails, the cuts change nothing
             if not is_pruned:
